@@ -255,13 +255,13 @@ M("C08", "skip-length-test", "breaking",
   [(P, DR, "                if len(url_line) + 2 > MAX_REQUEST_SIZE:\n                    self.url_line_received = True\n                    self._send_error_response(\n                        StatusCode.BAD_REQUEST,\n                        \"Request exceeds maximum size (1024 bytes)\",\n                    )\n                    return\n", "")],
   "V1:server.protocol:GeminiServerProtocol.data_received:bypass-line-length test")
 M("C08", "drop-fragment-check", "breaking",
-  [("utils/url.py", "parse_url", "    if parsed.fragment:\n        raise ValueError(f\"URL must not contain fragment: {url}\")\n", "")],
+  [("utils/url.py", "parse_url", "    if parsed.fragment or \"#\" in url:\n        raise ValueError(f\"URL must not contain fragment: {url}\")\n", "")],
   "V2:utils.url:parse_url:accepts:fragment")
 M("C08", "scheme-check-inverted", "breaking",
   [("utils/url.py", "parse_url", 'if parsed.scheme != "gemini":', 'if parsed.scheme == "gemini":')],
   "V2:utils.url:parse_url:")
 M("C08", "userinfo-only-password", "breaking",
-  [("utils/url.py", "parse_url", "if parsed.username or parsed.password:", "if parsed.password:")],
+  [("utils/url.py", "parse_url", "if parsed.username or parsed.password or \"@\" in parsed.netloc:", "if parsed.password:")],
   "V2:utils.url:parse_url:accepts:user name")
 M("C08", "hostname-check-dropped", "breaking",
   [("utils/url.py", "parse_url", "    if not parsed.hostname:\n        raise ValueError(f\"URL missing hostname: {url}\")\n", "")],
@@ -996,3 +996,15 @@ M("C14", "benign-token-set-comprehension", "benign",
 M("C16", "verify-new-failing-verdict-unhandled", "breaking",
   [(TF, "TOFUDatabase.verify", "        fingerprint = get_certificate_fingerprint(cert)\n", "        if cert is None:\n            return False, \"missing\"\n        fingerprint = get_certificate_fingerprint(cert)\n")],
   "G10:client.session:GeminiClient._get_single")
+
+M("C08", "userinfo-tested-by-truthiness", "breaking",
+  [(UU, "parse_url", "if parsed.username or parsed.password or \"@\" in parsed.netloc:", "if parsed.username or parsed.password:")],
+  "V2:utils.url:parse_url:accepts:an empty user-info")
+M("C08", "fragment-tested-by-truthiness", "breaking",
+  [(UU, "parse_url", "if parsed.fragment or \"#\" in url:", "if parsed.fragment:")],
+  "V2:utils.url:parse_url:accepts:an empty fragment")
+M("C08", "leading-blank-check-dropped", "breaking",
+  [(UU, "parse_url", "    if url[0] <= \" \":\n        raise ValueError(\"Invalid URL: leading blanks or control characters\")\n", "")],
+  "V2:utils.url:parse_url:accepts:a leading")
+M("C08", "benign-leading-check-by-lstrip", "benign",
+  [(UU, "parse_url", "    if url[0] <= \" \":\n", "    if url[:1].isspace() or url[0] < \" \":\n")])
